@@ -27,9 +27,15 @@ fn kind_pt(k: CompKind, nc: usize) -> PixelType {
 
 /// component values as f64 (all four kinds are exactly representable)
 fn convert(src_kind: CompKind, dst_kind: CompKind, nc: usize, vals: &[f64]) -> Result<Vec<f64>, String> {
+    convert_w(src_kind, dst_kind, nc, vals, 0)
+}
+
+/// The values laid out row-major in an image `width` pixels wide (0 = one single row); unused pixels of the last row are zero.
+fn convert_w(src_kind: CompKind, dst_kind: CompKind, nc: usize, vals: &[f64], width: usize) -> Result<Vec<f64>, String> {
     let n = vals.len();
     let npx = (n + nc - 1) / nc;
-    let mut src = Image::new(npx as u32, 1, kind_pt(src_kind, nc));
+    let (iw, ih) = if width == 0 { (npx, 1) } else { (width, (npx + width - 1) / width) };
+    let mut src = Image::new(iw as u32, ih as u32, kind_pt(src_kind, nc));
     {
         let b = src.buffer_mut();
         for (i, &v) in vals.iter().enumerate() {
@@ -41,7 +47,7 @@ fn convert(src_kind: CompKind, dst_kind: CompKind, nc: usize, vals: &[f64]) -> R
             }
         }
     }
-    let mut dst = Image::new(npx as u32, 1, kind_pt(dst_kind, nc));
+    let mut dst = Image::new(iw as u32, ih as u32, kind_pt(dst_kind, nc));
     fr::change_type_of_pixel_components(&src, &mut dst).map_err(|e| format!("{:?}", e))?;
     let b = dst.buffer();
     Ok((0..n)
@@ -136,6 +142,25 @@ pub fn run(ctx: &mut Ctx) {
                 }
             };
             stats.count("values_converted", vals.len() as u64);
+            // the conversion is per component: the same values in images 1..=9 pixels wide (rows shorter than any block a
+            // vectorised loop might use) must convert to the same results
+            {
+                let m = vals.len().min(2048);
+                let w = 1 + (blk as usize + nc) % 9;
+                for w in [w, 1 + (w + 3) % 9] {
+                    match convert_w(s, d, nc, &vals[..m], w) {
+                        Ok(o2) => {
+                            stats.seen("row_widths", w);
+                            stats.count("values_converted_in_narrow_images", m as u64);
+                            if let Some(i) = (0..m).find(|&i| o2[i].to_bits() != out[i].to_bits() && !(o2[i].is_nan() && out[i].is_nan())) {
+                                viols.push(Viol::new("depends_on_image_shape", format!("{} x{}: value {:e} (component {} of the image) converts to {:e} in one row and to {:e} in an image {} pixels wide", pair, nc, vals[i], i, out[i], o2[i], w)).sig(json!({"pair": pair})));
+                                break;
+                            }
+                        }
+                        Err(e) => viols.push(Viol::new("unexpected_error", format!("{} x{} width {}: {}", pair, nc, w, e))),
+                    }
+                }
+            }
             // monotone non-decreasing
             for i in 1..vals.len() {
                 if out[i] < out[i - 1] {
